@@ -30,11 +30,11 @@ TARGETS = [
     "sigma.conditions:SigmaCondition.parse",
 ]
 BOUNDS = {
-    "collections": "3 rules; first two of any of 15 kinds, third of 6 probe kinds (quick) / any kind (thorough); collect_errors on/off",
+    "collections": "3 rules; first two of any of 16 kinds, third of 7 probe kinds (quick) / any kind (thorough); collect_errors on/off",
     "set-ups": "pipelines: none / mapping+state+failure+state-gated condition / strict field mapping; backends: shipped test backend, verification backend in NOT-as-not-equals mode",
     "outside": "more than 3 rules; correlation rules (C09/C10); deferred query parts",
 }
-ASSUMPTIONS = ["process-wide caches (condition parse cache, modifier type-hint cache) are cleared before each stand-alone conversion and once before the collection is converted", "'converting that rule alone' = Backend.convert(SigmaCollection([rule])) with a new backend, a new pipeline from the same YAML and a new rule object from the same document"]
+ASSUMPTIONS = ["set-up (0,3) reads the fixed data file /verif/harness/data/users.txt through the real file_placeholders transformation (caller opt-in allow_external_sources=True)", "process-wide caches (condition parse cache, modifier type-hint cache) are cleared before each stand-alone conversion and once before the collection is converted", "'converting that rule alone' = Backend.convert(SigmaCollection([rule])) with a new backend, a new pipeline from the same YAML and a new rule object from the same document"]
 
 PIPES = [
     None,
@@ -81,10 +81,23 @@ transformations:
   - id: strict
     type: strict_field_mapping_failure
 """,
+    """
+name: ext
+priority: 10
+transformations:
+  - id: users
+    type: file_placeholders
+    path: /verif/harness/data/users.txt
+    filter: "^svc_"
+  - id: map
+    type: field_name_mapping
+    mapping:
+      fA: mappedA
+""",
 ]
 
-NK = 15
-PROBES = [0, 8, 9, 10, 11, 14]
+NK = 16
+PROBES = [0, 8, 9, 10, 11, 14, 15]
 
 
 def rule_doc(kind: int, i: int):
@@ -120,6 +133,8 @@ def rule_doc(kind: int, i: int):
         det["sel"] = {"other": f"v{i}"}
     elif kind == 14:
         det["sel"] = {"mappedA": f"v{i}"}
+    elif kind == 15:
+        det["sel"] = {"fA|expand": "%users%"}
     return d
 
 
@@ -131,7 +146,7 @@ def make_rule(kind, i):
 
 
 def new_backend(bk: int, pipe: int, collect: bool):
-    pl = ProcessingPipeline.from_yaml(PIPES[pipe]) if PIPES[pipe] else None
+    pl = ProcessingPipeline.from_yaml(PIPES[pipe], allow_external_sources=(pipe == 3)) if PIPES[pipe] else None
     if bk == 0:
         return TextQueryTestBackend(pl, collect_errors=collect)
     b = make_backend(12)
@@ -216,9 +231,9 @@ def c08_concrete(k0: int, k1: int, k2: int, collect: bool, bk: int, pipe: int) -
     return check([k0, k1, k2], collect, bk, pipe)
 
 
-SETUPS = [(0, 1), (1, 1), (0, 2), (0, 0)]  # (backend, pipeline)
+SETUPS = [(0, 1), (1, 1), (0, 2), (0, 0), (0, 3)]  # (backend, pipeline)
 OBLIGATIONS = (
-    [Ob("c08_isolation", {"BK": bk, "PIPE": pp, "K0LO": lo, "K0HI": lo + 4}, 600) for bk, pp in SETUPS for lo in (0, 5, 10)]
+    [Ob("c08_isolation", {"BK": bk, "PIPE": pp, "K0LO": lo, "K0HI": lo + (5 if lo == 0 else 4)}, 600) for bk, pp in SETUPS for lo in (0, 6, 11)]
     + [Ob("c08_isolation", {"BK": bk, "PIPE": pp, "K0LO": k, "K0HI": k, "FULL": 1}, 1800, tier="thorough") for bk, pp in SETUPS[:3] for k in range(NK)]
 )
 
